@@ -271,12 +271,15 @@ func (executor *transactionExecutor) executeWithInterpreter(
 		executor.program,
 		executor.interpret,
 	)
+	verifEvent("ExecEnd", executor.context.Location, err == nil)
 	if err != nil {
 		return err
 	}
 
 	// Write back all stored values, which were actually just cached, back into storage
+	verifEvent("CommitBegin", executor.context.Location, true)
 	err = environment.commitStorage(inter)
+	verifEvent("CommitEnd", executor.context.Location, err == nil)
 	if err != nil {
 		return err
 	}
@@ -316,12 +319,15 @@ func (executor *transactionExecutor) executeWithVM() (err error) {
 	signers := executor.authorizerValues(context)
 
 	err = executor.vm.InvokeTransaction(arguments, signers...)
+	verifEvent("ExecEnd", executor.context.Location, err == nil)
 	if err != nil {
 		return err
 	}
 
 	// Write back all stored values, which were actually just cached, back into storage
+	verifEvent("CommitBegin", executor.context.Location, true)
 	err = environment.commitStorage(context)
+	verifEvent("CommitEnd", executor.context.Location, err == nil)
 	if err != nil {
 		return err
 	}
